@@ -75,6 +75,7 @@ Section Natives.
           | minmax_go _ _ _ _ _ _ _ _ _ _ _ => fail
           | sort_keys _ _ _ _ _ _ => fail
           | make_row _ _ _ _ => fail
+          | snapshot _ _ _ => fail
           | _ => destruct x eqn:?
           end
       end.
@@ -101,10 +102,38 @@ Section Natives.
           end
       end.
 
+    (* the private copy of the table (662697a): one more heap allocation, the same copy on both sides *)
+    Lemma snapshot_sim t x y :
+      Sim x y ->
+      match snapshot F x t, snapshot F y t with
+      | Some (x', c), Some (y', c') => c = c' /\ Sim x' y'
+      | None, None => True
+      | _, _ => False
+      end.
+    Proof. sim_start. unfold snapshot. go. all: try exact I. all: close_leaf. Qed.
+
+    Ltac lock_snap :=
+      match goal with
+      | |- context [snapshot F ?X ?t] =>
+          match goal with
+          | |- context [snapshot F ?Y t] =>
+              lazymatch X with Y => fail
+              | _ =>
+                  let HS := fresh "HS" in assert (HS : Sim X Y) by sim_leaf;
+                  let Hr := fresh "Hr" in pose proof (@snapshot_sim t X Y HS) as Hr; clear HS;
+                  destruct (snapshot F X t) as [[? ?]|], (snapshot F Y t) as [[? ?]|];
+                  try contradiction;
+                  [ let E := fresh "E" in destruct Hr as [E Hr]; try subst; sim_split Hr | clear Hr ]
+              end
+          end
+      end.
+    Ltac go2 := repeat first [ progress sm_unfold | progress sm_cbn | lock_reads | plain_destruct | lock_writes
+                             | lock_rf | lock_snap ].
+
     Lemma native_minmax_sim less it kf x y :
       Sim x y -> nres_sim (native_minmax F P re self less it kf x) (native_minmax F P re self less it kf y).
     Proof.
-      sim_start. unfold native_minmax. go.
+      sim_start. unfold native_minmax. go2.
       all: try (close_leaf; fail).
       all: lock_mm.
       all: try exact Hr.
@@ -144,7 +173,7 @@ Section Natives.
     Lemma native_sorted_sim it kf x y :
       Sim x y -> nres_sim (native_sorted F P re self it kf x) (native_sorted F P re self it kf y).
     Proof.
-      sim_start. unfold native_sorted. go.
+      sim_start. unfold native_sorted. go2.
       all: try (close_leaf; fail).
       all: lock_sk (sort_keys_sim kf).
       all: try exact Hr.
